@@ -77,9 +77,13 @@ def lit_text(s, ins, rnd):
 class Printer:
     """prints a grammar; rnd=None gives the plain layout"""
 
-    def __init__(self, rnd=None, fancy=False, inline=None):
+    def __init__(self, rnd=None, fancy=False, inline=None, parens=False):
         self.rnd, self.fancy = rnd, fancy
         self.inline = inline   # dict name -> body: print `>R` as the parenthesised body
+        # redundant parentheses everywhere they are allowed: around the operand of every prefix operator and
+        # around half of the parts of every sequence (the "parens" twin of a grammar: same meaning)
+        self.parens = parens
+        self.prnd = random.Random(4711)
 
     def gap(self):
         if not self.fancy or self.rnd is None:
@@ -106,6 +110,8 @@ class Printer:
                 # redundant parentheses (fancy layouts only; never around `$`-less empties)
                 if self.fancy and self.rnd is not None and t and self.rnd.random() < 0.08:
                     return "(" + g() + t + g() + ")"
+                if self.parens and t and self.prnd.random() < 0.5:
+                    return "(" + t + ")"
                 return t
             return g().join(part(p) for p in e[1])
         if k == "group":
@@ -115,9 +121,9 @@ class Printer:
         if k == "clo":
             return "{" + self.expr(e[1]) + "}" + ("+" if e[2] else "")
         if k == "neg":
-            return "!" + self.expr(e[1])
+            return "!" + ("(" + self.expr(e[1]) + ")" if self.parens else self.expr(e[1]))
         if k == "pos":
-            return "&" + self.expr(e[1])
+            return "&" + ("(" + self.expr(e[1]) + ")" if self.parens else self.expr(e[1]))
         if k == "range":
             return "'" + esc_char(e[1], self.rnd, "'") + "'..'" + esc_char(e[2], self.rnd, "'") + "'"
         if k == "lit":
@@ -379,7 +385,11 @@ class GrammarGen:
             elif depth > 0 and r < 0.30:
                 parts.append(("group", self.gen_choice(depth - 1, i, fields_ok, fields)))
             elif r < 0.30 + self.o.p_lookahead * 0.3:
-                parts.append((rnd.choice(["neg", "pos"]), self.lookahead_body()))
+                la = (rnd.choice(["neg", "pos"]), self.lookahead_body())
+                if rnd.random() < 0.25:
+                    # a chain of prefix operators: !!x, &!x, !&x
+                    la = (rnd.choice(["neg", "neg", "pos"]), la)
+                parts.append(la)
             elif r < 0.45 and self.frags and fields_ok and rnd.random() < self.o.p_include * 2:
                 parts.append(("inc", rnd.choice(self.frags)))
             elif r < 0.60 and self.n_main > i + 1:
@@ -541,9 +551,9 @@ class GrammarGen:
                 ("lit", "\n", False)])])))
         return self
 
-    def text(self, rnd=None, fancy=False, inline=False):
+    def text(self, rnd=None, fancy=False, inline=False, parens=False):
         inl = {r.name: r.body for r in self.rules if r.kind == "rule"} if inline else None
-        return Printer(rnd, fancy, inl).grammar(self.rules)
+        return Printer(rnd, fancy, inl, parens).grammar(self.rules)
 
     # -- sentences -----------------------------------------------------------
     def rule_by_name(self, n):
